@@ -35,6 +35,7 @@ Next == /\ l <= Len(Rec)
             CASE Rec[l].ev = "oriented_cover" -> OrientedCoverOK(Rec[l])
               [] Rec[l].ev = "covers" -> CoversOK(Rec[l])
               [] Rec[l].ev = "subgroup_cover" -> SubgroupCoverOK(Rec[l])
+              [] Rec[l].ev = "deep_cover" -> CoverOK(Rec[l].out, Rec[l].in) /\ Rec[l].out.n <= Rec[l].k * Rec[l].in.n
               [] Rec[l].ev = "universal_cover" -> UniversalOK(Rec[l])
               [] OTHER -> FALSE) = TRUE
         /\ l' = l + 1
